@@ -7,8 +7,7 @@
    Part 3  the control skeleton: an execution-tree semantics with explicit callStack length, tryStack,
            iterStack, jobQueue, flag and value; every push/pop of vm.go / func.go / runtime.go that moves
            these is transcribed, including which pops are deferred (run on the panic path) and which
-           are not (generator.next / asyncRunner.start: finding F16; restoreStacks aborted by the
-           interrupted return() call: finding C15-ITER).  [fixed = true] is the specification S
+           are not (generator.next / asyncRunner.start: finding F16).  [fixed = true] is the specification S
            (every frame popped on every path); [fixed = false] is goja as it is (I).
    Part 4  the interleaving model of the flag protocol (Interrupt / poll+read) with happens-before. *)
 From Coq Require Import List Arith NArith Bool Lia.
@@ -178,21 +177,25 @@ Fixpoint close_iters (n : nat) (l : list (option N)) (fl : bool) (lg : list N) :
       end
   end.
 
-(* returns (aborted, state).  In the specification the truncation happens on every path. *)
+(* returns (aborted, state): when the interrupted return() call escapes, the truncation is skipped
+   (the uncatchable payload then reaches the next recover point, which drops the stacks) *)
 Definition restore_stacks (c : cfg) (itlen : nat) s : bool * st :=
   let n := length (its s) - itlen in
   let '(a, l', lg') := close_iters n (its s) (flag s) (log s) in
-  let l'' := if a && fixed c then skipn n (its s) else l' in
-  (a, mkSt (cs s) (ts s) l'' (jq s) (flag s) (ival s) lg' (pcnt s) (clock s) (late s)).
+  (a, mkSt (cs s) (ts s) l' (jq s) (flag s) (ival s) lg' (pcnt s) (clock s) (late s)).
+
+(* vm.dropStacks(iterLen, _) (fix 22853aa): truncate WITHOUT closing the iterators *)
+Definition drop_stacks (itlen : nat) s : st := set_its (skipn (length (its s) - itlen) (its s)) s.
 
 (* handleThrow(uncatchable) at a recover point: pop non-marker frames; at the first marker frame restore the
-   call stack to its callStackLen and run restoreStacks; then panic(arg) again (vm.go:802-842) *)
+   call stack to its callStackLen and drop the iterator/reference stacks (no iterator.return(): no script
+   code runs for an uncatchable payload); then panic(arg) again *)
 Definition unwind_u (c : cfg) s : st :=
   let (t', _) := handle_throw false (ts s) in
   let s1 := set_ts t' s in
   match t' with
   | [] => s1
-  | f :: _ => snd (restore_stacks c (f_it f) (set_cs (Nat.min (cs s1) (f_cs f)) s1))
+  | f :: _ => drop_stacks (f_it f) (set_cs (Nat.min (cs s1) (f_cs f)) s1)
   end.
 
 (* handleThrow(catchable) arriving at the frame that was pushed when the try stack had depth d-1
@@ -525,15 +528,14 @@ Definition idle_vec (s : st) : list nat :=
 Definition is_idle (s : st) : bool :=
   Nat.eqb (cs s) 0 && Nat.eqb (length (ts s)) 0 && Nat.eqb (length (its s)) 0 && Nat.eqb (length (jq s)) 0 && negb (flag s).
 
-(* syntactic guards: the program never resumes a generator / async function and never iterates an
-   iterator that has a script return() — the regions of findings F16 and C15-ITER *)
+(* syntactic guard: the program never resumes a generator / async function — the region of finding F16 *)
 Fixpoint no_gen_i (i : instr) : bool :=
   match i with
   | IEv _ | IProbe | IThrow => true
   | ITry b _ cb _ fb => no_gen_c b && no_gen_c cb && no_gen_c fb
   | ICall b => no_gen_c b
   | INat _ l => no_gen_s l
-  | IForOf r l => (match r with None => true | Some _ => false end) && no_gen_s l
+  | IForOf _ l => no_gen_s l
   | IGen _ => false
   | IAsync _ _ => false
   | IJob b => no_gen_c b
